@@ -362,7 +362,8 @@ def check_name_ranges(P, R):
     for nm, other, op in (("min", "max", "<"), ("max", "min", ">")):
         for x in ups[nm]:
             gs = [(g, norm_cond(g["cond"], g["pol"])) for g in guards_of(fn, x) if "pol" in g]
-            own = any(o == op and nm in b for _, (o, a, b) in gs)
+            flip = {"<": ">", ">": "<"}[op]
+            own = any((o == op and nm in b) or (o == flip and nm in a) for _, (o, a, b) in gs)      # len < min, or min > len
             cross = [g for g, (o, a, b) in gs if other in b or other in a]
             if own and not cross:
                 R.ob(rule, "tokenise: running %s updated under its own comparison only" % nm, True)
